@@ -137,7 +137,7 @@ def accuracy(chk, P, f, fname):
         if t and t.get("cond") is not None and t["k"] in ("if", "while", "for", "do") and gt(t["cond"]) and len(blk["succ"]) > 1 and blk["succ"][1] >= 0:
             E[(bb, blk["succ"][1])] = {var_of(t["cond"][2])}
     S = _succeeded(f)
-    chk.judge(len(S) >= 1, "ACCURACY", fname + ":success-sites", f.loc, "%d sites set Succeeded" % len(S))
+    chk.shape(len(S) >= 1, "ACCURACY", fname + ":success-sites", f.loc, "%d sites set Succeeded" % len(S))
     W = _writes(f, spec)
     # norm variable definitions
     def norm_defs(v):
@@ -264,7 +264,7 @@ def quats(chk, P):
             p = f.path_exists((wb, wi), lambda q: q is se, lambda q: q["k"] == "call" and str(q.get("fn", "")).endswith("::normalizeQuaternions"), avoid_edges=noq)
             chk.judge(p is None, "QUATS", "projectQ:q-change#%d->success#%d:normalized" % (_ord([x[2] for x in W], we), _ord([x[2] for x in S], se)), "%s:%d" % (f.file, we["line"]),
                       "q is changed at line %d and success reported at line %d without normalizing the quaternions" % (we["line"], se["line"]), p)
-    chk.judge(n >= 1, "QUATS", "projectQ:change-to-success-paths", f.loc, "%d (change, success) pairs examined" % n)
+    chk.shape(n >= 1, "QUATS", "projectQ:change-to-success-paths", f.loc, "%d (change, success) pairs examined" % n)
     g = _one(chk, P, REP + "::normalizeQuaternions")
     if g:
         gd = _decls(g)
@@ -313,7 +313,7 @@ def prescribed_update(chk, P, f, fname):
             v = var_of(call_args(e)[1])
             if v in decls and sx_find(decls[v].get("init") or [], lambda y: y[0] == "var" and y[1] in decls and spec["nfree"] in sx_str(decls[y[1]].get("init"))):
                 sol.add(v)
-    chk.judge(len(sol) == 1, "PRESCRIBED", fname + ":reduced-solution", f.loc, "reduced (free-variable) solution vector(s): %s" % sorted(sol))
+    chk.shape(len(sol) == 1, "PRESCRIBED", fname + ":reduced-solution", f.loc, "reduced (free-variable) solution vector(s): %s" % sorted(sol))
     if len(sol) != 1:
         return
     R = next(iter(sol))
@@ -331,7 +331,7 @@ def prescribed_update(chk, P, f, fname):
         chk.judge(only_via(f, b, f_edges), "PRESCRIBED", "%s:full-length-use-of-%s@%s#%d" % (fname, R, _last(e["fn"]), n), "%s:%d" % (f.file, e["line"]),
                   "the reduced solution %s is used as a full-length vector (%s) only when nothing is prescribed" % (R, _last(e["fn"])))
     ups = [(b, i, e) for b, i, e in f.calls() if str(e.get("fn", "")).endswith("::" + spec["unpack"])]
-    chk.judge(len(ups) >= 1, "PRESCRIBED", fname + ":unpack-sites", f.loc, "%d calls of %s" % (len(ups), spec["unpack"]))
+    chk.shape(len(ups) >= 1, "PRESCRIBED", fname + ":unpack-sites", f.loc, "%d calls of %s" % (len(ups), spec["unpack"]))
     targets = set()
     for n, (b, i, e) in enumerate(ups):
         a = call_args(e)
@@ -482,7 +482,7 @@ def dispatch(chk, P):
     }
     for name, seq in sorted(order.items()):
         fs = [f for f in P.fns_named(S + "::" + name) if len(f.d.get("params", [])) == 2]
-        chk.judge(len(fs) == 1, "DISPATCH", "System::%s(state,accuracy):found" % name, "", "convenience overload found: %d" % len(fs))
+        chk.shape(len(fs) == 1, "DISPATCH", "System::%s(state,accuracy):found" % name, "", "convenience overload found: %d" % len(fs))
         for f in fs:
             decls = _decls(f)
             accp = f.d["params"][1][0]
